@@ -467,3 +467,209 @@ Qed.
 
 Lemma c_inv_reachable cfg evs : c_inv cfg (c_run cfg c_init evs).
 Proof. apply c_inv_run. apply c_inv_init. Qed.
+
+(* ================================================================== C04 *)
+Lemma c_done_no_pred cfg s f x r :
+  c_inv cfg s -> c_get (c_futs s) f = Some x -> c_fdone x = Some r -> c_fpred x = None.
+Proof.
+  intros I Hx Hd. destruct (c_fpred x) as [p|] eqn:Hp; [|reflexivity].
+  destruct (ci_pred _ _ I f x p Hx Hp) as [Hn _]. congruence.
+Qed.
+
+Lemma c_fetch_no_pred cfg now futs f x :
+  c_get futs f = Some x -> c_fpred x = None -> c_fetch cfg now futs f = f.
+Proof. intros Hx Hp. unfold c_fetch. rewrite Hx, Hp. reflexivity. Qed.
+
+Lemma c_single_flight cfg evs :
+  let s := c_run cfg c_init evs in
+  (forall f g x y, c_get (c_futs s) f = Some x -> c_get (c_futs s) g = Some y ->
+     c_fdone x = None -> c_fdone y = None -> c_fkey x = c_fkey y ->
+     ~ In f (c_displaced s) -> ~ In g (c_displaced s) -> f = g) /\
+  (forall f g x y, In f (c_running s) -> In g (c_running s) ->
+     c_get (c_futs s) f = Some x -> c_get (c_futs s) g = Some y -> c_fkey x = c_fkey y ->
+     ~ In f (c_displaced s) -> ~ In g (c_displaced s) -> f = g) /\
+  (forall f, In f (c_running s) -> c_isload (c_futs s) f) /\
+  NoDup (c_running s) /\
+  (forall k s' f created, c_step cfg s (CLoad k) = (s', OLoad f created) ->
+     created = negb (c_is_good (c_status cfg (c_now s) (c_futs s) (c_lookup (c_map s) k)))) /\
+  (forall k f x, c_get (c_futs s) f = Some x -> c_fkey x = k -> c_fdone x = None ->
+     ~ In f (c_displaced s) -> exists g, c_step cfg s (CLoad k) = (s, OLoad g false)) /\
+  (forall k f x v e u, c_lookup (c_map s) k = Some f -> c_get (c_futs s) f = Some x ->
+     c_fdone x = Some (v, e, u) -> c_now s - u < c_expire cfg e ->
+     c_step cfg s (CLoad k) = (s, OLoad f false)).
+Proof.
+  intros s. assert (I : c_inv cfg s) by apply c_inv_reachable.
+  assert (A : forall f g x y, c_get (c_futs s) f = Some x -> c_get (c_futs s) g = Some y ->
+     c_fdone x = None -> c_fdone y = None -> c_fkey x = c_fkey y ->
+     ~ In f (c_displaced s) -> ~ In g (c_displaced s) -> f = g).
+  { intros f g x y Hx Hy Hdx Hdy Hk Hnf Hng.
+    destruct (ci_current _ _ I f x Hx Hdx) as [H1|H1]; [contradiction|].
+    destruct (ci_current _ _ I g y Hy Hdy) as [H2|H2]; [contradiction|]. congruence. }
+  assert (B : forall f, In f (c_running s) -> c_isload (c_futs s) f).
+  { intros f Hin. apply (ci_jobs _ _ I). apply in_or_app. right. exact Hin. }
+  split; [exact A|]. split.
+  { intros f g x y Hf Hg Hx Hy Hk Hnf Hng. destruct (B f Hf) as [x' [Hx' Hdx]]. destruct (B g Hg) as [y' [Hy' Hdy]].
+    assert (x' = x) by congruence. assert (y' = y) by congruence. subst. eapply A; eauto. }
+  split; [exact B|]. split.
+  { pose proof (ci_jobs_nodup _ _ I) as H. revert H. generalize (c_queue s) as q.
+    induction q as [|a q IHq]; cbn; intros H; [exact H|]. inversion H; auto. }
+  split.
+  { intros k s' f created H. cbn [c_step] in H.
+    destruct (c_load_cases cfg s k) as [[Hs E]|[[Hs E]|[[Hs|Hs] E]]]; rewrite E in H; inversion H; subst; rewrite Hs; reflexivity. }
+  split.
+  { intros k f x Hx Hk Hd Hnf. destruct (ci_current _ _ I f x Hx Hd) as [H|H]; [contradiction|].
+    cbn [c_step]. destruct (c_load_cases cfg s k) as [[Hs E]|[[Hs E]|[Hs E]]].
+    - rewrite E. eexists. reflexivity.
+    - exfalso. subst k. rewrite H in Hs. rewrite (c_status_loading cfg _ _ f x Hx Hd) in Hs. discriminate.
+    - exfalso. subst k. rewrite H in Hs. rewrite (c_status_loading cfg _ _ f x Hx Hd) in Hs. destruct Hs; discriminate. }
+  intros k f x v e u Hl Hx Hd Hage. cbn [c_step].
+  assert (Hst : c_status cfg (c_now s) (c_futs s) (Some f) = CGood).
+  { rewrite (c_status_done cfg _ _ f x v e u Hx Hd). assert (c_now s - u <? c_expire cfg e = true) by lia. rewrite H. reflexivity. }
+  destruct (c_load_cases cfg s k) as [[Hs E]|[[Hs E]|[Hs E]]]; rewrite Hl in *.
+  - rewrite E. rewrite (c_fetch_no_pred cfg _ _ f x Hx (c_done_no_pred cfg s f x _ I Hx Hd)). reflexivity.
+  - congruence.
+  - destruct Hs; congruence.
+Qed.
+
+(* a completed future never changes; the key of a future never changes *)
+Lemma c_step_stable cfg s ev f x :
+  c_inv cfg s -> c_get (c_futs s) f = Some x ->
+  exists x', c_get (c_futs (fst (c_step cfg s ev))) f = Some x' /\ c_fkey x' = c_fkey x /\
+             (forall r, c_fdone x = Some r -> c_fdone x' = Some r).
+Proof.
+  intros I Hx. destruct ev as [k|k|k v e|k|k i v e| |dt]; cbn [c_step].
+  - destruct (c_load_cases cfg s k) as [[Hs ->]|[[Hs ->]|[Hs ->]]]; cbn [fst c_new_job c_futs].
+    + exists x. auto.
+    + exists x. split; [apply c_get_app_old; exact Hx|auto].
+    + exists x. split; [apply c_get_app_old; exact Hx|auto].
+  - exists x. auto.
+  - cbn [fst c_set c_futs]. exists x. split; [apply c_get_app_old; exact Hx|auto].
+  - unfold c_start. destruct (c_take_first _ _) as [[g q']|]; cbn [fst c_futs]; exists x; auto.
+  - unfold c_finish. destruct (c_take_nth _ _ _) as [[g r']|] eqn:Et; cbn [fst c_futs]; [|exists x; auto].
+    destruct (c_take_nth_spec _ _ _ _ _ Et) as [HP Hk]. destruct (c_key_is_spec _ _ _ Hk) as [x0 [Hg0 Hk0]].
+    rewrite c_get_setfut by (eapply c_get_lt; eauto). destruct (Nat.eqb f g) eqn:E.
+    + apply Nat.eqb_eq in E. subst g. assert (x0 = x) by congruence. subst x0.
+      eexists. split; [reflexivity|]. split; [cbn; congruence|].
+      intros r Hr. exfalso.
+      assert (Hin : In f (c_queue s ++ c_running s)).
+      { apply in_or_app. right. eapply Permutation_in; [apply Permutation_sym; exact HP|left; reflexivity]. }
+      apply (ci_jobs _ _ I) in Hin. destruct Hin as [y [Hy Hd]]. congruence.
+    + exists x. auto.
+  - exists x. auto.
+  - destruct (dt <? 0); cbn [fst c_futs]; exists x; auto.
+Qed.
+
+Lemma c_run_stable cfg evs : forall s f x,
+  c_inv cfg s -> c_get (c_futs s) f = Some x ->
+  exists x', c_get (c_futs (c_run cfg s evs)) f = Some x' /\ c_fkey x' = c_fkey x /\
+             (forall r, c_fdone x = Some r -> c_fdone x' = Some r).
+Proof.
+  induction evs as [|ev r IH]; intros s f x I Hx; cbn [c_run].
+  - exists x. auto.
+  - destruct (c_step_stable cfg s ev f x I Hx) as [x1 [H1 [K1 D1]]].
+    destruct (IH _ f x1 (c_inv_step cfg s ev I) H1) as [x2 [H2 [K2 D2]]].
+    exists x2. split; [exact H2|]. split; [congruence|]. intros r0 Hr. apply D2, D1, Hr.
+Qed.
+
+Lemma c_future_immutable cfg evs evs' f x v e u :
+  let s := c_run cfg c_init evs in
+  c_get (c_futs s) f = Some x -> c_fdone x = Some (v, e, u) ->
+  exists x', c_get (c_futs (c_run cfg s evs')) f = Some x' /\
+             c_fdone x' = Some (v, e, u) /\ c_fkey x' = c_fkey x.
+Proof.
+  intros s Hx Hd. destruct (c_run_stable cfg evs' s f x (c_inv_reachable cfg evs) Hx) as [x' [H1 [K1 D1]]].
+  exists x'. auto.
+Qed.
+
+(* how a future can become / be complete after one step *)
+Lemma c_result_origin cfg evs ev f x' v e u :
+  let s := c_run cfg c_init evs in
+  let s' := fst (c_step cfg s ev) in
+  c_get (c_futs s') f = Some x' -> c_fdone x' = Some (v, e, u) ->
+  (exists x, c_get (c_futs s) f = Some x /\ c_fdone x = Some (v, e, u) /\ c_fkey x = c_fkey x') \/
+  (exists i x, ev = CFinish (c_fkey x') i v e /\ u = c_now s /\ In f (c_running s) /\
+               c_get (c_futs s) f = Some x /\ c_fdone x = None /\ c_fkey x = c_fkey x') \/
+  (ev = CSet (c_fkey x') v e /\ u = c_now s /\ f = length (c_futs s)).
+Proof.
+  intros s s' Hx' Hd. assert (I : c_inv cfg s) by apply c_inv_reachable. subst s'.
+  destruct ev as [k|k|k v0 e0|k|k i v0 e0| |dt]; cbn [c_step] in Hx'.
+  - destruct (c_load_cases cfg s k) as [[Hs E]|[[Hs E]|[Hs E]]]; rewrite E in Hx'; cbn [fst c_new_job c_futs] in Hx'.
+    + left. exists x'. auto.
+    + apply c_get_app_inv in Hx'. destruct Hx' as [Hx'|[_ ->]]; [left; exists x'; auto|cbn in Hd; discriminate].
+    + apply c_get_app_inv in Hx'. destruct Hx' as [Hx'|[_ ->]]; [left; exists x'; auto|cbn in Hd; discriminate].
+  - left. exists x'. auto.
+  - cbn [fst c_set c_futs] in Hx'. apply c_get_app_inv in Hx'. destruct Hx' as [Hx'|[-> ->]].
+    + left. exists x'. auto.
+    + right. right. cbn in Hd. inversion Hd; subst. cbn. auto.
+  - left. exists x'. unfold c_start in Hx'. destruct (c_take_first _ _) as [[g q']|]; cbn [fst c_futs] in Hx'; auto.
+  - unfold c_finish in Hx'. destruct (c_take_nth _ _ _) as [[g r']|] eqn:Et; cbn [fst c_futs] in Hx'; [|left; exists x'; auto].
+    destruct (c_take_nth_spec _ _ _ _ _ Et) as [HP Hk]. destruct (c_key_is_spec _ _ _ Hk) as [x0 [Hg0 Hk0]].
+    rewrite c_get_setfut in Hx' by (eapply c_get_lt; eauto). destruct (Nat.eqb f g) eqn:E.
+    + apply Nat.eqb_eq in E. subst g. inversion Hx'; subst x'. cbn in Hd. inversion Hd; subst.
+      right. left. exists i, x0. cbn [c_fkey].
+      assert (Hin : In f (c_running s)).
+      { eapply Permutation_in; [apply Permutation_sym; exact HP|left; reflexivity]. }
+      assert (Hl : c_isload (c_futs s) f).
+      { apply (ci_jobs _ _ I). apply in_or_app. right. exact Hin. }
+      destruct Hl as [y [Hy Hdy]]. assert (y = x0) by congruence. subst y. repeat split; auto.
+    + left. exists x'. auto.
+  - left. exists x'. auto.
+  - left. exists x'. destruct (dt <? 0); cbn [fst c_futs] in Hx'; auto.
+Qed.
+
+Lemma c_fetch_key cfg s f x :
+  c_inv cfg s -> c_get (c_futs s) f = Some x ->
+  exists y, c_get (c_futs s) (c_fetch cfg (c_now s) (c_futs s) f) = Some y /\ c_fkey y = c_fkey x.
+Proof.
+  intros I Hx. unfold c_fetch. rewrite Hx. destruct (c_fpred x) as [p|] eqn:Hp.
+  - destruct (ci_pred _ _ I f x p Hx Hp) as [_ [y [v [e [u [Hy [Hk _]]]]]]].
+    destruct (c_status cfg (c_now s) (c_futs s) (Some p)); try (exists x; auto; fail).
+    exists y. auto.
+  - cbn. exists x. auto.
+Qed.
+
+Lemma c_returned_key cfg evs :
+  let s := c_run cfg c_init evs in
+  (forall k s' f c, c_step cfg s (CLoad k) = (s', OLoad f c) ->
+     exists x, c_get (c_futs s') f = Some x /\ c_fkey x = k) /\
+  (forall k f, c_get2 cfg s k = OAwait f -> exists x, c_get (c_futs s) f = Some x /\ c_fkey x = k) /\
+  (forall k s' f, c_step cfg s (CStart k) = (s', OStart f) ->
+     exists x, c_get (c_futs s) f = Some x /\ c_fkey x = k /\ In f (c_queue s) /\ In f (c_running s')).
+Proof.
+  intros s. assert (I : c_inv cfg s) by apply c_inv_reachable. split; [|split].
+  - intros k s' f c H. cbn [c_step] in H.
+    destruct (c_load_cases cfg s k) as [[Hs E]|[[Hs E]|[Hs E]]]; rewrite E in H; inversion H; subst; clear H.
+    + destruct (c_lookup (c_map s) k) as [l|] eqn:Hl; [|cbn in Hs; discriminate].
+      destruct (ci_map_wf _ _ I k l Hl) as [x [Hx Hk]].
+      destruct (c_fetch_key cfg s l x I Hx) as [y [Hy Hky]]. exists y. split; [exact Hy|congruence].
+    + destruct (c_lookup (c_map s) k) as [l|] eqn:Hl; [|cbn in Hs; discriminate].
+      destruct (ci_map_wf _ _ I k l Hl) as [x [Hx Hk]]. exists x. cbn [c_new_job c_futs].
+      split; [apply c_get_app_old; exact Hx|exact Hk].
+    + cbn [c_new_job c_futs]. eexists. split; [apply c_get_app_new|reflexivity].
+  - intros k f H. unfold c_get2 in H. destruct (c_lookup (c_map s) k) as [l|] eqn:Hl.
+    2:{ destruct (c_status cfg (c_now s) (c_futs s) None); discriminate. }
+    destruct (ci_map_wf _ _ I k l Hl) as [x [Hx Hk]].
+    destruct (c_status cfg (c_now s) (c_futs s) (Some l)); try discriminate; inversion H; subst.
+    + destruct (c_fetch_key cfg s l x I Hx) as [y [Hy Hky]]. exists y. split; [exact Hy|congruence].
+    + exists x. auto.
+  - intros k s' f H. cbn [c_step] in H. unfold c_start in H.
+    destruct (c_take_first _ _) as [[g q']|] eqn:Et; inversion H; subst; clear H.
+    destruct (c_take_first_spec _ _ _ _ Et) as [HP Hk]. destruct (c_key_is_spec _ _ _ Hk) as [x [Hx Hkx]].
+    exists x. repeat split; auto.
+    + eapply Permutation_in; [apply Permutation_sym; exact HP|left; reflexivity].
+    + cbn. apply in_or_app. right. left. reflexivity.
+Qed.
+
+(* ------------------------------------------------------------------ shard index *)
+Lemma c_shard_index_in_range ty x bytes n :
+  0 <= n ->
+  0 <= c_shard_index ty x bytes (2 ^ n) < 2 ^ n /\
+  c_shard_index ty x bytes (2 ^ n) =
+    (match ty with KString => c_fnv32 bytes | _ => sext 64 x end) mod 2 ^ n.
+Proof.
+  intros Hn. unfold c_shard_index.
+  set (next := match ty with KString => c_fnv32 bytes | _ => sext 64 x end).
+  replace (2 ^ n - 1) with (Z.ones n) by (rewrite Z.ones_equiv; lia).
+  rewrite Z.land_ones by exact Hn. split; [|reflexivity].
+  apply Z.mod_pos_bound. apply Z.pow_pos_nonneg; lia.
+Qed.
